@@ -72,6 +72,28 @@ fn main() {
 			println!("HARNESS-ERROR idx={} seed={}: {}", i, o.seed, e);
 		}
 	}
+	if args.iter().any(|a| a == "--replay-check") {
+		// every run carries its replay object (PERSISTSIM_FORCE_REPLAY=1): replaying it literally must
+		// reproduce the same history
+		let mut same = 0;
+		let mut differ = 0;
+		let mut missing = 0;
+		for (i, o) in results.iter() {
+			match o.replay.as_ref() {
+				Some(rep) => {
+					let again = run_isolated(|| PersistSim.replay(rep));
+					if again.history_fp == o.history_fp && again.violations == o.violations {
+						same += 1;
+					} else {
+						differ += 1;
+						println!("REPLAY-DIFF idx={} {:016x} vs {:016x}", i, o.history_fp, again.history_fp);
+					}
+				},
+				None => missing += 1,
+			}
+		}
+		println!("replay-check: same={} differ={} without-replay={}", same, differ, missing);
+	}
 	if do_shrink {
 		if let Some((i, o)) = results.iter().find(|(_, o)| !o.violations.is_empty() && o.replay.is_some()) {
 			let v = &o.violations[0];
